@@ -149,8 +149,21 @@ def corr_policy(cfg):
     return int(rest[1:]) if rest.startswith("p") else 0
 
 # ---- C06 ---------------------------------------------------------------------------------------------
+def has_pseudo(m):
+    for _, mm in msmgen.walk(m):
+        if any(st["kind"] == "entrypt" or (isinstance(st["kind"], list) and st["kind"][0] == "exitpt") or st.get("explicit") for st in mm["states"]):
+            return True
+        if any(isinstance(rr["tgt"], list) and rr["tgt"][0] in ("direct", "entrypt") for rr in msmgen.all_rows(mm)):
+            return True
+    return False
+
 def mon_C06(md_lib, cfg, ops, impl, stats, r=None):
     out = []
+    if has_pseudo(md_lib):
+        # entry pseudo states re-dispatch the entering event inside the submachine (a nested direct call that reports its
+        # own no_transition), exit pseudo states create a converted occurrence with the same payload: the attribution of
+        # no_transition reports to the outer call below does not apply (C09 covers these machines)
+        return out
     nreg_root = len(md_lib["inits"])
     prev_snap = None
     for k, block in enumerate(impl):
